@@ -268,6 +268,12 @@ func runTxn(o *c.Out, cfg *Config, gs []GFlow, t *Txn) {
 	for _, h := range hits {
 		h.Suite, h.Index, h.Case = "txn", idx, k
 		o.Hit(h)
+		if f := os.Getenv("C04_DUMP_HITS"); f != "" { // debugging aid: every hit, not only the kept samples
+			if fh, err := os.OpenFile(f, os.O_APPEND|os.O_CREATE|os.O_WRONLY, 0o644); err == nil {
+				fmt.Fprintf(fh, "%d %s\n", idx, h.Signature)
+				fh.Close()
+			}
+		}
 	}
 }
 
